@@ -3,6 +3,7 @@
 Differential oracle against a fresh interpreter state: the checking process is a *zygote* (library imported, nothing
 executed); a history of catalogue calls runs in forked child A, every call of it runs alone in its own forked child B_i;
 observations must agree and argument buffers must be left unchanged (documented in-place Hamming repairs excepted).
+Compound steps (scribble-and-repeat, argument re-use) check that caches / defaults never alias caller-visible mutable objects.
 Wall-clock / randomness clause: two fresh interpreters with pinned clocks 400 days apart and different random streams
 must agree on every parsing call; a third one (same clock, PYTHONMALLOC=debug) must agree on every call, which makes a
 dependence on uninitialised memory (heap state left by earlier calls) visible.  Machinery: vp/purity.py.
@@ -1231,7 +1232,11 @@ RULE = (
     "one entry with different arguments/lengths; one entry with one argument changed per step; curated (writer, reader) pairs with noise in between; a history whose last call repeats an earlier "
     "one; constructors with default arguments mixed with parsers; half of the histories are followed by a fixed suffix of 'state probe' calls that dump the cached CRC "
     "tables, the LRRP token tables and default-argument objects) plus the complete set of ordered pairs of canonical calls (pairs sub-check).  "
-    "Non-trivial: >= 2 calls of the same group in one history (the later one is compared against its run in a fresh state); distinct by hash of the "
+    "A step may be compound: scribble_repeat (call, damage in place everything mutable the caller got hold of, call "
+    "again with rebuilt arguments) or reuse (call with a, write b into the same argument buffers and call, call with a fresh a); every record must equal the "
+    "fresh-state observation of the plain call.  pairs additionally covers every *mode* of every entry (each-choice over opcode / variant / length switches "
+    "of the argument specs: all RCP/TMP/LP/RRS/HRNP/HSTRP/TMS/ARS opcodes, CSBK opcodes, data header formats, FLCOs, LRRP documents, block types, codes) with "
+    "two same-shape calls: ordered pairs both ways, re-use both ways, scribble-and-repeat of each.  Non-trivial: >= 2 calls of the same group in one history (the later one is compared against its run in a fresh state); distinct by hash of the "
     "history.  Clock sub-check: the same call lists evaluated in three fresh interpreters (clock pinned 400 days apart + different random streams; same clock but "
     "PYTHONMALLOC=debug so that uninitialised memory reads 0xCD)."
 )
@@ -1242,8 +1247,10 @@ ASSUMPTIONS = [
     "repr and the library's own serialisation; object identity is not observed",
     "a catalogue entry may be a short fixed script around the call under test (build the object, call, serialise); it is a deterministic function of its "
     "JSON arguments",
-    "only library calls are made between the compared calls: a caller that scribbles on returned buffers or on attributes of returned objects is outside "
-    "the statement",
+    "scribble-and-repeat / argument re-use steps: what a caller does with *its own* objects (the buffers it passed, the buffers, lists and dicts it got "
+    "back as a result, as an element of a returned container or as a direct attribute of a returned object) must not change what a later call returns; "
+    "containers are scribbled down to the elements of a returned container, buffers wherever reachable (depth <= 7); nested shared objects below that "
+    "(e.g. token definition objects inside a copied LRRP table) are not scribbled",
     "exemptions for argument buffers: HammingCommon.check_and_correct and BPTC19696.repair_if_necessary(deinterleaved=True) (documented in-place repair)",
     "a result that differs between CPython's normal and debug (0xCD-filling) allocator depends on uninitialised memory, i.e. on what earlier calls left "
     "on the heap; this is judged under the first clause of the statement (same arguments, same result)",
@@ -1614,7 +1621,7 @@ def drv_pairs(ctx: Ctx, sub: SubCheck):
     canonical call of every entry of the other groups in one child; a difference is re-examined as an exact pair)."""
     _self_check()
     import_library()
-    calls = _canon(ctx.pick(3, 4))
+    calls = _canon(ctx.pick(2, 4))
     first = {}
     for c in calls:
         first.setdefault(c["e"], c)
@@ -1703,7 +1710,7 @@ def drv_pairs(ctx: Ctx, sub: SubCheck):
     ctx.tally.extra["modes_of_entries"] = len(families)
     ctx.tally.extra["canonical_pair_space"] = (
         "every ordered pair of the canonical calls (directed argument sets + <=4 generated variants per entry), one child per pair" if not ctx.quick else
-        "every ordered pair of canonical calls (directed + <=3 generated variants per entry) inside a group, one child per pair; across groups one sweep per entry")
+        "every ordered pair of canonical calls (directed + <=2 generated variants per entry) inside a group, one child per pair; across groups one sweep per entry")
     ctx.tally.notes.append("pairs: exhaustive over ordered pairs of the fixed canonical calls only (not over arguments); every mode of every entry "
                            "(each-choice over opcode / variant / length switches of the argument specs) with two same-shape calls: ordered pairs, argument re-use, scribble-and-repeat")
 
@@ -1740,8 +1747,8 @@ def drv_clock(ctx: Ctx, sub: SubCheck):
 
 
 SUBCHECKS = [
-    SubCheck("history", oracle_history, drv_history, "Hypothesis histories of 1..12 catalogue calls: child A (history) vs children B_i (call alone); argument buffers unchanged"),
-    SubCheck("pairs", oracle_history, drv_pairs, "every ordered pair of canonical calls (writer, reader), same differential oracle"),
+    SubCheck("history", oracle_history, drv_history, "Hypothesis histories of 1..12 steps (plain calls, scribble-and-repeat, argument re-use): child A (history) vs children B_i (step alone); argument buffers unchanged"),
+    SubCheck("pairs", oracle_history, drv_pairs, "ordered pairs of canonical calls (writer, reader); every mode of every entry: same-shape ordered pairs, argument re-use, scribble-and-repeat; same differential oracle"),
     SubCheck("clock", oracle_clock, drv_clock, "three fresh interpreters: parsing calls agree under clocks pinned 400 days apart and different random streams; all calls agree under a 0xCD-filling allocator"),
 ]
 
